@@ -31,7 +31,7 @@ type c11Step struct {
 	Npre     int       `json:"npre,omitempty"`
 	Request  string    `json:"request,omitempty"`
 	Types    int       `json:"types,omitempty"`
-	Path     int       `json:"path,omitempty"` // 0 valid, 1 unusable
+	Path     int       `json:"path,omitempty"` // 0 valid, 1 unusable, 2 so long that the run directory can be made but the experiment-state file cannot
 	Text     string    `json:"text,omitempty"` // label / comment
 	Flag     bool      `json:"flag,omitempty"` // couple on/off, group add/delete
 	Src      int       `json:"src,omitempty"`
@@ -478,6 +478,27 @@ func c11Run(c c11Case) (v vVerdict) {
 					mustErr = "unusable path"
 				}
 			}
+			if st.Path == 2 && c.Source != "lancero" && c.Source != "erroring" {
+				// I/O failure in the last step of START: <path>/<date>/<nnnn> (14 more bytes) can be made and the data files
+				// (.../<date>_run<nnnn>_chan<k>.ljh, +27) fit into PATH_MAX, <date>_run<nnnn>_experiment_state.txt (+38) does not
+				long := filepath.Join(root, "L")
+				for len(long) < 4050-201 {
+					long = filepath.Join(long, strings.Repeat("x", 200))
+				}
+				if pad := 4050 - len(long) - 1; pad > 0 {
+					long = filepath.Join(long, strings.Repeat("y", pad))
+				}
+				cfg.Path = long
+				if strings.HasPrefix(up, "START") && e.running && !sc.ActiveSource.ComputeWritingState().Active && st.Types&7 != 0 && (st.Types&3 != 0) {
+					mustErr = "experiment-state file cannot be created"
+					e.classes["io-fault-statefile"] = true
+					e.special++
+				}
+			}
+			if st.Path == 3 {
+				cfg.Path = filepath.Join(root, "gain100%s") // a per-cent sign in the path: accepted or refused, never fatal
+				e.classes["percent-path"] = true
+			}
 			known := false
 			for _, p := range []string{"START", "STOP", "PAUSE", "UNPAUSE"} {
 				if strings.HasPrefix(up, p) {
@@ -716,7 +737,7 @@ func c11GenStep(t *rapid.T, c *c11Case) c11Step {
 			Kind: rapid.SampledFrom([]string{"valid", "valid", "wrongshape", "mismatched", "truncated", "short", "empty", "hugeheader", "garbage", "badbase64"}).Draw(t, "pkind")}
 	case k < 12:
 		return c11Step{Op: "wc", Request: rapid.SampledFrom([]string{"START", "START", "Stop", "PAUSE", "UNPAUSE", "UNPAUSE lbl", "UNPAUSEx", "", "FOO"}).Draw(t, "wcreq"),
-			Types: rapid.IntRange(0, 7).Draw(t, "types"), Path: rapid.SampledFrom([]int{0, 0, 0, 1}).Draw(t, "path")}
+			Types: rapid.IntRange(0, 7).Draw(t, "types"), Path: rapid.SampledFrom([]int{0, 0, 0, 1, 2, 3}).Draw(t, "path")}
 	case k < 13:
 		return c11Step{Op: "label", Text: rapid.SampledFrom([]string{"A", "state B", "", "x,y"}).Draw(t, "label")}
 	case k < 15:
